@@ -292,6 +292,33 @@ Shape_dupentry == [root |-> "I",
   uniqfb |-> {"C", "C2", "M2", "I"},
   order |-> <<"C", "L", "M", "C2", "M2", "I">>]
 
+Shape_sigloop == [root |-> "I",
+  blobs |-> {"CX", "LX", "CA", "LA"},
+  mans |-> ("X" :> "image") @@ ("A" :> "image") @@ ("SG" :> "index") @@ ("I" :> "index"),
+  kids |-> ("X" :> <<<<"CX", "config", "", FALSE>>, <<"LX", "layer", "", FALSE>>>>) @@
+           ("A" :> <<<<"CA", "config", "", FALSE>>, <<"LA", "layer", "", FALSE>>>>) @@
+           ("SG" :> <<<<"X", "entry", "linux/amd64", FALSE>>, <<"A", "entry", "linux/amd64", FALSE>>>>) @@
+           ("I" :> <<<<"X", "entry", "linux/amd64", FALSE>>>>),
+  refs |-> {},
+  dtags |-> {<<"dt:SG", "X", "SG">>},
+  long |-> {},
+  fbs |-> {},
+  uniq |-> {"CX", "LX", "CA", "LA", "A", "SG", "I"},
+  uniqfb |-> {"CX", "LX", "CA", "LA", "A", "SG", "I"},
+  order |-> <<"CX", "LX", "X", "CA", "LA", "A", "SG", "I">>]
+
+Shape_foreign == [root |-> "M",
+  blobs |-> {"C", "L1", "LF", "LD", "LX"},
+  mans |-> ("M" :> "image"),
+  kids |-> ("M" :> <<<<"C", "config", "", FALSE>>, <<"L1", "layer", "", FALSE>>, <<"LF", "layer", "", FALSE>>, <<"LD", "layer", "", FALSE>>, <<"LX", "ext", "", FALSE>>>>),
+  refs |-> {},
+  dtags |-> {},
+  long |-> {},
+  fbs |-> {},
+  uniq |-> {"C", "L1", "LF", "LD", "LX", "M"},
+  uniqfb |-> {"C", "L1", "LF", "LD", "LX", "M"},
+  order |-> <<"C", "L1", "LF", "LD", "LX", "M">>]
+
 Shape_big == [root |-> "M",
   blobs |-> {"C", "LB", "L2"},
   mans |-> ("M" :> "image"),
@@ -322,5 +349,5 @@ Shape_xref == [root |-> "I",
   uniqfb |-> {"C1", "C2", "I", "FB:M1", "FB:M2"},
   order |-> <<"L1", "C1", "C2", "M1", "M2", "I", "X1", "X2">>]
 
-Shapes == ("img" :> Shape_img) @@ ("dup" :> Shape_dup) @@ ("idx2" :> Shape_idx2) @@ ("nested" :> Shape_nested) @@ ("art" :> Shape_art) @@ ("artidx" :> Shape_artidx) @@ ("bentry" :> Shape_bentry) @@ ("docker" :> Shape_docker) @@ ("schema1" :> Shape_schema1) @@ ("ext" :> Shape_ext) @@ ("empty" :> Shape_empty) @@ ("inline" :> Shape_inline) @@ ("dtag" :> Shape_dtag) @@ ("loop" :> Shape_loop) @@ ("diamond" :> Shape_diamond) @@ ("diamond2" :> Shape_diamond2) @@ ("artshare" :> Shape_artshare) @@ ("sha512" :> Shape_sha512) @@ ("inlinebad" :> Shape_inlinebad) @@ ("dupentry" :> Shape_dupentry) @@ ("big" :> Shape_big) @@ ("xref" :> Shape_xref)
+Shapes == ("img" :> Shape_img) @@ ("dup" :> Shape_dup) @@ ("idx2" :> Shape_idx2) @@ ("nested" :> Shape_nested) @@ ("art" :> Shape_art) @@ ("artidx" :> Shape_artidx) @@ ("bentry" :> Shape_bentry) @@ ("docker" :> Shape_docker) @@ ("schema1" :> Shape_schema1) @@ ("ext" :> Shape_ext) @@ ("empty" :> Shape_empty) @@ ("inline" :> Shape_inline) @@ ("dtag" :> Shape_dtag) @@ ("loop" :> Shape_loop) @@ ("diamond" :> Shape_diamond) @@ ("diamond2" :> Shape_diamond2) @@ ("artshare" :> Shape_artshare) @@ ("sha512" :> Shape_sha512) @@ ("inlinebad" :> Shape_inlinebad) @@ ("dupentry" :> Shape_dupentry) @@ ("sigloop" :> Shape_sigloop) @@ ("foreign" :> Shape_foreign) @@ ("big" :> Shape_big) @@ ("xref" :> Shape_xref)
 =============================================================================
